@@ -19,12 +19,13 @@ import (
 // and the allowed line interval; the harness renders them with the real code.
 
 type posCase struct {
-	D     map[string]interface{} `json:"d"`
-	Entry []string               `json:"entry"`
-	Lib   []string               `json:"lib"`
-	File  string                 `json:"file"`
-	Lo    int                    `json:"lo"`
-	Hi    int                    `json:"hi"`
+	D       map[string]interface{} `json:"d"`
+	Entry   []string               `json:"entry"`
+	Lib     []string               `json:"lib"`
+	Twin    []string               `json:"twin"`
+	File    string                 `json:"file"`
+	Lo      int                    `json:"lo"`
+	Hi      int                    `json:"hi"`
 	Node    int                    `json:"node"`
 	Allowed []int                  `json:"allowed"`
 }
@@ -48,7 +49,7 @@ func runRenderHalf(ctx *core.Ctx) {
 		return
 	}
 	caught := map[string]bool{}
-	for _, dev := range []string{"innermost_frame_line", "callee_file", "line_from_other_source", "call_node_not_restored"} {
+	for _, dev := range []string{"innermost_frame_line", "callee_file", "line_from_other_source", "call_node_not_restored", "source_per_namespace"} {
 		r, err := ctx.RunTLC(core.TLCOpts{Module: "SoyErrPos", Cfg: errPosCfg(`"`+dev+`"`, false), Workers: 4, Timeout: 5 * time.Minute, Label: "errpos-deviation-" + dev})
 		if err != nil {
 			ctx.ToolError("%v", err)
@@ -82,6 +83,16 @@ func runRenderHalf(ctx *core.Ctx) {
 func replayRender(ctx *core.Ctx, pc *posCase) {
 	files := []core.File{{Name: "entry.soy", Text: strings.Join(pc.Entry, "\n") + "\n"}, {Name: "lib.soy", Text: strings.Join(pc.Lib, "\n") + "\n"}}
 	feat := fmt.Sprintf("w1=%v,w2=%v,fail=%v,depth=%v,call=%v", pc.D["w1"], pc.D["w2"], pc.D["f"], pc.D["depth"], pc.D["shape"])
+	// a second file declaring the entry template's namespace, added before or after it
+	if tw, _ := pc.D["twin"].(string); tw != "" && tw != "none" {
+		twin := core.File{Name: "twin.soy", Text: strings.Join(pc.Twin, "\n") + "\n"}
+		if tw == "first" {
+			files = append([]core.File{twin}, files...)
+		} else {
+			files = append(files, twin)
+		}
+		feat += ",same-namespace-file-added-" + tw
+	}
 	allowed := map[int]bool{}
 	for _, l := range pc.Allowed {
 		allowed[l] = true
